@@ -16,6 +16,8 @@ import (
 // ---- alphabets ------------------------------------------------------------------------------
 
 var c01Lines = []string{
+	// a record whose fields are named like the labels of its own stream (later records of that stream must not inherit them)
+	`{"app":"z","env":"q","y":"a"}`, `app=z env=q y=b`,
 	"", "a", "ab", "ba", "a b", "A", "é", "\xff", "b",
 	`x=5 y=a`, `x=7 y=b d=1s sz=1KB ip=10.0.0.1`, `x=abc`, `y=a`, `d=1h30m x=5.5`, `sz=2MiB y=b`, `ip=10.0.0.9 x=10`, `ip=notanip d=soon sz=big`, `x=-1 y="a b"`,
 	`x=a y=a`, `x=b y=a`, `{"x":true,"y":"a"}`, `{"x":false,"d":true,"sz":false,"ip":true}`,
@@ -30,6 +32,8 @@ var c01Lines = []string{
 	`ip=notanip d=soon sz=big y=b`, `sz=big d=soon`, `sz= d= x=`,
 	// invalid UTF-8 other than the needle \xff: byte-wise and rune-wise search disagree on these
 	"\xfeb", "a\xc3", "\xef\xbf\xbd",
+	// an escape sequence in the middle of a needle of the alphabet (seen only after decolorize)
+	"a\x1b[31mb", "\x1b[1ma\x1b[0m b",
 	// IPv6 addresses that start with a hex letter
 	"peer fe80::1 up", "mc ff02::2", "fd00::5 and 10.0.0.1", "cafe::1",
 	// long lines: the needle only at the very end, beyond 1 KiB; a long logfmt record
@@ -103,7 +107,7 @@ func c01Stages() []refmodel.Stage {
 		}
 	}
 	for _, op := range []string{"|=", "!="} {
-		for _, v := range []string{"10.0.0.1", "10.0.0.1-10.0.0.5", "10.0.0.0/24", "::1", "fe80::/10", "80::1"} {
+		for _, v := range []string{"10.0.0.1", "10.0.0.1-10.0.0.5", "10.0.0.0/24", "::1", "fe80::/10", "80::1", "10.0.0.9/24"} {
 			a = append(a, lfip(op, v))
 		}
 	}
@@ -130,6 +134,11 @@ func c01Stages() []refmodel.Stage {
 		pb("or", ps("app", "=", "x"), ps("app", "=", "y")),
 		pb("and", ps("app", "=", "x"), ps("env", "!=", "p")),
 		pb("or", ps("app", "=~", "x"), ps("msg", "=", "a")),
+		// what a conversion failure of an earlier filter leaves behind
+		ps("__error__", "=", ""), ps("__error__", "!=", ""),
+		pb("or", pn("d", ">", "duration", "1s"), ps("y", "=", "a")),
+		pb("or", ps("y", "=", "a"), pn("sz", ">", "bytes", "1KB")),
+		pip("ip", "==", "10.0.0.9/24"), pip("ip", "!=", "10.0.0.200/24"),
 	} {
 		a = append(a, lab(p))
 	}
@@ -308,6 +317,36 @@ func c01Run(r *vkit.Run) {
 			visit(c01Input{Data: "all", Sel: sels[1+(a+b)%3], Stages: []int{a, b}}, false)
 		}
 	}
+	// a parser followed by every ordered pair of label filters (what the first filter leaves in __error__ is seen by the second)
+	var labelFilters []int
+	for i, st := range c01A {
+		if _, ok := st.(*refmodel.LabelFilter); ok {
+			labelFilters = append(labelFilters, i)
+		}
+	}
+	var plainParsers []int
+	for i, st := range c01A {
+		switch x := st.(type) {
+		case *refmodel.JSONStage:
+			if len(x.Labels) == 0 && len(x.Exprs) == 0 {
+				plainParsers = append(plainParsers, i)
+			}
+		case *refmodel.LogfmtStage:
+			if len(x.Labels) == 0 && len(x.Exprs) == 0 {
+				plainParsers = append(plainParsers, i)
+			}
+		}
+	}
+	if len(plainParsers) != 2 {
+		r.HarnessError("expected the two plain parser stages, found %v", plainParsers)
+	}
+	for _, p := range plainParsers {
+		for _, a := range labelFilters {
+			for _, b := range labelFilters {
+				visit(c01Input{Data: "all", Sel: 0, Stages: []int{p, a, b}}, false)
+			}
+		}
+	}
 	r.GlobalState("pipelines<=2")
 	{
 		lat := 5
@@ -325,7 +364,7 @@ func c01Run(r *vkit.Run) {
 	}
 	// (iii) order-dependent behaviour: every ordered triple of the small alphabet under pipelines with distinct
 	dist := []int{len(c01A) - 4, len(c01A) - 3, len(c01A) - 2, len(c01A) - 1}
-	parsers := []int{36, 37}
+	parsers := plainParsers // | json and | logfmt: distinct needs the labels they extract
 	filters := []int{1, 2, 13, 40, 44, 48, 67}
 	for n := range c01Tri {
 		for _, d := range dist {
